@@ -1,12 +1,58 @@
 import GridVerif.Model.Proto
 import GridVerif.Model.Elem
+import GridVerif.Model.Harmonics
 
 namespace GridVerif.Driver.C02
-open GridVerif.Proto
+open GridVerif.Proto GridVerif.Harmonics
 
-/-- Line-protocol handler of property C02: `C02.<op> args…` ↦ one answer line
-(`none` = malformed, answered `bad-op`). -/
+/-- `n x₁ … xₙ` at the front of a token list ↦ `FloatArray` (no intermediate `List Float`). -/
+def pFloatArray : List String → Option (FloatArray × List String)
+  | [] => none
+  | n :: rest => do
+    let k ← n.toNat?
+    let rec go (k : Nat) (ts : List String) (acc : FloatArray) : Option (FloatArray × List String) :=
+      match k, ts with
+      | 0, ts => some (acc, ts)
+      | _ + 1, [] => none
+      | k + 1, t :: ts => do
+        let x ← pFloat t
+        go k ts (acc.push x)
+    go k rest (FloatArray.emptyWithCapacity k)
+
+/-- Line-protocol handler of property C02 (`none` = malformed, answered `bad-op`).
+
+* `C02.file degree 3n x₁ y₁ z₁ … n w₁ … wₙ` ↦
+  `ok size maxNormDev sumW (degree+1) err₀ … err_degree (degree+1) m₀ … m_degree` (`AngularCheck.file`;
+  `m_l` = an order at which the error of degree `l` is attained, negative = sine row);
+  `value-error` when the number of coordinates is not three times the number of weights.
+* `C02.screen degree k m₁ … m_k 3n … n …` ↦ the same report restricted to the orders `|m| ∈ {0, m₁, …, m_k}`
+  (`AngularCheck.fileSel`).
+* `C02.moments degree 3n … n …` ↦ `ok (degree+1)² moments…` in the row order of the harmonics. -/
 def handle : List String → Option String
+  | "C02.file" :: d :: rest => do
+    let d ← pNat d
+    let (pts, rest) ← pFloatArray rest
+    let (w, rest) ← pFloatArray rest
+    if rest ≠ [] then none else
+    if pts.size ≠ 3 * w.size then pure "value-error" else
+    let r := AngularCheck.file pts w d
+    pure s!"ok {r.size} {sFloat r.maxNormDev} {sFloat r.sumW} {sFloats r.errByDegree.toList} {sInts r.argByDegree.toList}"
+  | "C02.screen" :: d :: rest => do
+    let d ← pNat d
+    let (ms, rest) ← pVec pNat rest
+    let (pts, rest) ← pFloatArray rest
+    let (w, rest) ← pFloatArray rest
+    if rest ≠ [] then none else
+    if pts.size ≠ 3 * w.size then pure "value-error" else
+    let r := AngularCheck.fileSel pts w d ms
+    pure s!"ok {r.size} {sFloat r.maxNormDev} {sFloat r.sumW} {sFloats r.errByDegree.toList} {sInts r.argByDegree.toList}"
+  | "C02.moments" :: d :: rest => do
+    let d ← pNat d
+    let (pts, rest) ← pFloatArray rest
+    let (w, rest) ← pFloatArray rest
+    if rest ≠ [] then none else
+    if pts.size ≠ 3 * w.size then pure "value-error" else
+    pure ("ok " ++ sFloats (AngularCheck.momentRows pts w d))
   | _ => none
 
 end GridVerif.Driver.C02
